@@ -2,6 +2,8 @@ package main
 
 import (
 	"fmt"
+	"go/token"
+	"strings"
 
 	"golang.org/x/tools/go/ssa"
 )
@@ -304,4 +306,101 @@ func (c *Check) LoopGateForMapUpdateN(fn *ssa.Function, lp *Loop, g Gate, n int,
 	}
 	// choose the update that is NOT reachable without the gate among candidates: use the last in block order
 	return c.mustPassFrom(fn, lp.Body, g, []ssa.Instruction{ups[len(ups)-1]}, what)
+}
+
+// NoEarlyExit: the loop is left only through its header (range exhausted), so every element is
+// visited. Exits to blocks that end in a panic, in a reject return, or that `allow` accepts are
+// tolerated. Decides the "for every element" reading of a loop against `break` / early `return`.
+func (c *Check) NoEarlyExit(fn *ssa.Function, lp *Loop, allow func(from, to *ssa.BasicBlock) bool, what string) bool {
+	if fn == nil || lp == nil {
+		return false
+	}
+	key := shortName(fn) + "|loop:" + lp.Name + "|visits every element"
+	desc := fmt.Sprintf("loop %s is left only when its range is exhausted (%s)", lp.Name, what)
+	var bad []string
+	for bi := range lp.Blocks {
+		b := fn.Blocks[bi]
+		if b == lp.Header {
+			continue
+		}
+		for _, s := range b.Succs {
+			if lp.Blocks[s.Index] {
+				continue
+			}
+			if allow != nil && allow(b, s) {
+				continue
+			}
+			// compound loop conditions (`for ...; a && b; ...`): the later operands are evaluated in
+			// cond.* blocks that leave to the header's own exit
+			if strings.HasPrefix(b.Comment, "cond.") && len(lp.Header.Succs) == 2 && s == lp.Header.Succs[1] {
+				continue
+			}
+			// rotated `for i := range n` loops leave from the latch on `iter+1 < n` false
+			if iff, ok := b.Instrs[len(b.Instrs)-1].(*ssa.If); ok && s == b.Succs[1] {
+				if bo, ok := iff.Cond.(*ssa.BinOp); ok && bo.Op == token.LSS {
+					if inc, ok := bo.X.(*ssa.BinOp); ok && inc.Op == token.ADD {
+						if ph, ok := inc.X.(*ssa.Phi); ok && strings.HasPrefix(ph.Comment, "rangeint") {
+							continue
+						}
+					}
+				}
+			}
+			// tolerated: the exit leads only to panics / reject returns
+			okExit := true
+			for ri := range reachable(fn, s, nil) {
+				rb := fn.Blocks[ri]
+				if lp.Blocks[ri] {
+					continue
+				}
+				switch t := rb.Instrs[len(rb.Instrs)-1].(type) {
+				case *ssa.Return:
+					if !isRejectReturn(fn, t) {
+						okExit = false
+					}
+				}
+			}
+			if !okExit {
+				bad = append(bad, fmt.Sprintf("block %d (%s) leaves the loop to block %d at %s", b.Index, b.Comment, s.Index, instrPos(c.W, b.Instrs[len(b.Instrs)-1])))
+			}
+		}
+		c.Sites++
+	}
+	if len(bad) > 0 {
+		c.Fail("loopexit", key, desc, strings.Join(bad, "; "), c.W.Pos(fn.Pos()))
+		return false
+	}
+	c.OK("loopexit", key, desc, c.W.Pos(lp.Header.Instrs[0].Pos()))
+	return true
+}
+
+// searchLoops: anchored loops that legitimately stop before the range is exhausted, each with
+// the reason; every other anchored loop must visit every element (NoEarlyExit).
+var searchLoops = map[string]string{
+	"(*common.SignedTransaction).TransactionType|inputs":       "search loop: the typed early returns are decided one by one by C01's classify rule",
+	"(*common.SignedTransaction).validateInputs|inputs":        "the two mint/deposit early accepts, counted exactly (== 2) by C01's exempt rule; every other exit is a reject",
+	"(*kernel.Node).NodesListWithoutState|scan":                "descending search: returns the newest sequence older than the threshold (gated by C11)",
+	"(*kernel.Node).nodeSequenceWithoutState|all nodes":        "records are sorted by timestamp: the scan stops at the first record not before the threshold (gated by C11)",
+}
+
+// loopVisitsAll records, once per check and loop, that an anchored loop visits every element.
+func (c *Check) loopVisitsAll(fn *ssa.Function, lp *Loop) {
+	if fn == nil || lp == nil {
+		return
+	}
+	name := lp.Name
+	if i := strings.Index(name, "#"); i >= 0 {
+		name = name[:i]
+	}
+	k := shortName(fn) + "|" + name
+	if c.loopSeen == nil {
+		c.loopSeen = map[*ssa.BasicBlock]bool{}
+	}
+	if c.loopSeen[lp.Header] {
+		return
+	}
+	c.loopSeen[lp.Header] = true
+	if _, ok := searchLoops[k]; ok {
+		return
+	}
+	c.NoEarlyExit(fn, lp, nil, "anchored for-every-element loop")
 }
